@@ -386,6 +386,14 @@ TARGETED = {
     "dup_ifexp": "def f():\n    y = c(0, c(1) if t(2) else c(3), c(1) if t(2) else c(3))\n    return c(4, y)\n",
     "dup_compare_chain": "def f():\n    if v(1) < v(2) < v(1):\n        return c(3)\n    return c(4)\n",
     "return_in_loop_else": "def f():\n    for x in it(1):\n        c(2)\n    else:\n        return c(3)\n    return c(4)\n",
+    # continue in a loop whose test is an and/or (the continue must re-evaluate the whole test), with and without else
+    "while_and_continue": "def f():\n    while t(1) and t(2):\n        c(3)\n        if t(4):\n            continue\n        c(5)\n    return c(6)\n",
+    "while_or_continue_else": "def f():\n    while t(1) or t(2):\n        if t(4):\n            continue\n        c(5)\n        if t(7):\n            break\n    else:\n        c(8)\n    return c(6)\n",
+    "while_and3_continue_nested": "def f():\n    while t(1):\n        while v(2) and v(3) and v(4):\n            if t(5):\n                continue\n            c(6)\n        c(7)\n    return c(8)\n",
+    # textually identical statements back to back inside a loop body / an arm / a nested region
+    "dup_assign_in_while": "def f():\n    y = c(0)\n    while t(1):\n        y = c(2, y)\n        y = c(2, y)\n    return c(3, y)\n",
+    "dup_assign_in_arm": "def f():\n    y = c(0)\n    if t(1):\n        y = c(2, y)\n        y = c(2, y)\n    else:\n        c(4)\n        c(4)\n    return c(3, y)\n",
+    "dup_stmts_nested": "def f():\n    y = 1\n    while t(1):\n        if t(2):\n            y = y * 2\n            y = y * 2\n            y += 1\n            y += 1\n        c(5, y)\n        c(5, y)\n    return c(3, y)\n",
     "continue_in_while_else_if": "def f():\n    while t(1):\n        if t(2):\n            continue\n        elif t(3):\n            break\n        c(4)\n    else:\n        c(5)\n    return c(6)\n",
 }
 
